@@ -282,7 +282,10 @@ Definition ends_with_e (cs : string) : bool :=
 
 Definition read_string (v : velem) : res xstring :=
   cs <- (o <- opt_s v "encoding" ;; Ok (match o with Some s => s | None => "UTF-8" end)) ;;
-  order <- (if single_byte cs || ends_with_e cs then Ok None
+  (* single-byte charsets: no byte order; an LE/BE suffix implies it; otherwise the byteOrder attribute is required *)
+  order <- (if single_byte cs then Ok None
+            else if String.eqb cs "UTF-16LE" || String.eqb cs "UTF-32LE" then Ok (Some "leastSignificantByteFirst")
+            else if String.eqb cs "UTF-16BE" || String.eqb cs "UTF-32BE" then Ok (Some "mostSignificantByteFirst")
             else o <- opt_s v "byteOrder" ;; match o with Some s => Ok (Some s) | None => Err EValue end) ;;
   '(size, holder) <-
      match find "SizeInBits" v with
